@@ -11,6 +11,11 @@ sys.path.insert(0, HERE)
 
 import vlib  # noqa: E402  (sets up sys.path for the code under test)
 
+if os.environ.get("VERIF_DEBUG_SIGUSR1"):      # debugging aid: kill -USR1 <pid> dumps all thread stacks (forks inherit it)
+    import faulthandler
+    import signal
+    faulthandler.register(signal.SIGUSR1, all_threads=True)
+
 
 def find_module(pid):
     hits = glob.glob(os.path.join(HERE, "props", pid.lower() + "_*.py"))
@@ -61,4 +66,9 @@ def main():
 
 
 if __name__ == "__main__":
-    sys.exit(main())
+    rc = main()
+    # a broken tree can leave non-daemon simulator threads behind (reported as 'thread-leak'): they must not keep the
+    # check process alive after the verdict is printed and the evidence is written
+    sys.stdout.flush()
+    sys.stderr.flush()
+    os._exit(rc if isinstance(rc, int) else 2)
